@@ -102,6 +102,15 @@ public class Float64 {
                 || Double.isNaN(s) || Double.isInfinite(s)) return BoolValue.ValFalse;
         return b(Math.abs(x - y) <= r * Math.abs(s) + t);
     }
+    public static Value FRatio(final Value a, final Value b, final Value rtol, final Value scale, final Value atol) {
+        final double x = d(a), y = d(b), r = d(rtol), s = d(scale), t = d(atol);
+        if (Double.isNaN(x) || Double.isNaN(y) || Double.isInfinite(x) || Double.isInfinite(y)
+                || Double.isNaN(s) || Double.isInfinite(s)) return f(Double.POSITIVE_INFINITY);
+        final double den = r * Math.abs(s) + t;
+        final double num = Math.abs(x - y);
+        if (num == 0.0) return f(0.0);
+        return f(num / den);
+    }
     public static Value FDefect(final Value a, final Value b, final Value scale) {
         final double s = Math.max(Math.abs(d(scale)), Double.MIN_NORMAL);
         return f(Math.abs(d(a) - d(b)) / s);
